@@ -38,6 +38,7 @@ type c06Case struct {
 	Source  string   `json:"source"`
 	Tickets bool     `json:"tickets"`
 	Data    bool     `json:"data,omitempty"` // driver-side: also push application data
+	Dyn     bool     `json:"dyn,omitempty"`   // driver-side: dynamic record sizing left on, and the transfer starts with one 200 kB Write
 	Offer   bool     `json:"offer,omitempty"` // driver-side: the client has a session cache, i.e. offers the session-ticket extension
 }
 
@@ -173,7 +174,7 @@ func c06Configs(c *c06Case) (cc, sc *gmtls.Config, err error) {
 	sc.ClientAuth = authTypes[c.Auth]
 	sc.ClientCAs = both
 	sc.SessionTicketsDisabled = !c.Tickets
-	sc.DynamicRecordSizingDisabled = true
+	sc.DynamicRecordSizingDisabled = !c.Dyn
 	if c.Ckind == "gm" {
 		cc = &gmtls.Config{GMSupport: &gmtls.GMSupport{}, RootCAs: f.sm2CA, ServerName: "localhost"}
 		switch c.Ccert {
@@ -192,7 +193,7 @@ func c06Configs(c *c06Case) (cc, sc *gmtls.Config, err error) {
 		}
 	}
 	cc.CipherSuites = suiteList(c.Csuites)
-	cc.DynamicRecordSizingDisabled = true
+	cc.DynamicRecordSizingDisabled = !c.Dyn
 	if c.Offer {
 		// a client offers the session-ticket extension only when it has somewhere to keep the ticket
 		cc.ClientSessionCache = gmtls.NewLRUClientSessionCache(1)
@@ -312,11 +313,14 @@ func observe(c *gmtls.Conn, err error, p interface{}) endObs {
 
 // push the payload in the given write sizes, read it with odd buffer sizes, compare
 func transfer(w, r *gmtls.Conn, total int, seed int) (int, error) {
+	return transferSizes(w, r, total, seed, []int{1, 2, 1207, 16384, 16385, 3, 70000})
+}
+
+func transferSizes(w, r *gmtls.Conn, total int, seed int, sizes []int) (int, error) {
 	data := make([]byte, total)
 	for i := range data {
 		data[i] = byte((i*131 + seed) % 251)
 	}
-	sizes := []int{1, 2, 1207, 16384, 16385, 3, 70000}
 	errc := make(chan error, 1)
 	go func() {
 		pos, k := 0, 0
@@ -383,7 +387,11 @@ func runC06(c *c06Case) (c06Obs, error) {
 	}
 	obs.Flight = flightOf(m)
 	if c.Data && obs.Cli.Complete && obs.Srv.Complete && obs.Cli.Panic == "" && obs.Srv.Panic == "" {
-		n1, e1 := transfer(cli, srv, 220000, 1)
+		sizes := []int{1, 2, 1207, 16384, 16385, 3, 70000}
+		if c.Dyn {
+			sizes = []int{200000, 5, 17000} // the record-size ramp of the sender meets a Write that has far more than a record pending
+		}
+		n1, e1 := transferSizes(cli, srv, 220000, 1, sizes)
 		n2, e2 := 0, error(nil)
 		if e1 == nil {
 			n2, e2 = transfer(srv, cli, 40000, 2)
